@@ -160,19 +160,8 @@ let err_class = function
 
 (* ---------------------------------------------------------------- suite codec *)
 let decode_kfs : (string * (n -> n list -> bool)) list = [
-  "kf_varint_noncanonical", kf_varint_noncanonical;
   "kf_auth_v3", kf_auth_v3;
-  "kf_ack_flags", kf_ack_flags;
-  "kf_v3_password_without_username", kf_v3_password_without_username;
-  "kf_connect_props_will", kf_connect_props_will;
-  "kf_retain_handling_3", kf_retain_handling_3;
-  "kf_nolocal_shared", kf_nolocal_shared;
-  "kf_unsub_share_syntax", kf_unsub_share_syntax;
-  "kf_pid_zero", kf_pid_zero;
-  "kf_name_empty", kf_name_empty;
-  "kf_prop_len_overrun", kf_prop_len_overrun;
-  "kf_proplen_omitted", kf_proplen_omitted;
-  "kf_trailing", kf_trailing;
+  "kf_pubrel_v3", kf_pubrel_v3;
 ]
 
 let rec drop k l = if k <= 0 then l else match l with [] -> [] | _ :: r -> drop (k - 1) r
@@ -211,7 +200,7 @@ let run (input : Sexp.t) (impl : Sexp.t) : Verdict.t =
       | Some (cv, cbs) ->
         (try fst (List.find (fun (_, f) -> f cv cbs) decode_kfs) with Not_found -> "-")
       | None ->
-        if not (alloc_ok bs ialloc) && kf_alloc_upfront v bs then "kf_alloc_upfront" else "-"
+        "-"
     end in
   let outcome = match isteps with
     | StOk _ :: _ -> "ok" | StErr e :: _ -> err_class e | StPanic :: _ -> "panic" | _ -> "none" in
@@ -248,10 +237,7 @@ let run_topic (input : Sexp.t) (impl : Sexp.t) : Verdict.t =
   let io = { to_utf8 = f "utf8"; to_name1 = f "name1"; to_name0 = f "name0"; to_filter1 = f "filter1"; to_filter0 = f "filter0"; to_v5 = f "v5" } in
   let mo = model_topic_obs s in
   let oracle = c06_topic_ok s io in
-  let kf = if oracle then "-"
-    else if kf_t_name_empty s then "kf_name_empty"
-    else if kf_t_nul s then "kf_topic_nul"
-    else "-" in
+  let kf = "-" in
   let c k b = match b with TB true -> k | _ -> "" in
   { Verdict.agree = topic_obs_eqb mo io; oracle; kf;
     nontrivial = s <> [];
